@@ -1588,6 +1588,15 @@ fn script_lossless(rng: &mut Rng, _tier: Tier, ex: &mut dyn FnMut(&str) -> Strin
     // the end of the sessions
     if rng.chance(1, 6) {
         d.disc(if rng.chance(1, 2) { Disc::SDiscAll } else { Disc::RDiscAll }, 0);
+    } else if n == 3 && rng.chance(1, 2) {
+        // three sessions in table slots 0, 1, 2: the one in the LOWEST slot leaves first (a hole in front of the others),
+        // then the one in the HIGHEST slot leaves by its own Disconnect datagram; the middle one is a bystander
+        d.disc(rng.pick(&[Disc::CDisc, Disc::CTDisc, Disc::SDisc]), 0);
+        d.round_lossless(rng, dt, 1);
+        d.round_lossless(rng, dt, 1);
+        d.disc(rng.pick(&[Disc::CDisc, Disc::CTDisc]), 2);
+        d.round_lossless(rng, dt, 1);
+        d.round_lossless(rng, dt, 1);
     } else {
         for k in 0..n {
             let kind = match rng.below(7) {
@@ -1621,6 +1630,21 @@ fn script_lossless(rng: &mut Rng, _tier: Tier, ex: &mut dyn FnMut(&str) -> Strin
     }
     for _ in 0..3 {
         d.round_lossless(rng, dt.max(50_000), 0);
+    }
+    if !d.live_slots().is_empty() {
+        // the sessions nobody ended go on as before: traffic both ways and broadcasts, then a second heal
+        for _ in 0..2 {
+            d.round_lossless(rng, dt.max(50_000), 2);
+            d.reads(rng, false);
+        }
+        d.events_and_state();
+        d.x("note heal-start");
+        for _ in 0..3 {
+            d.round_lossless(rng, 301_000, 0);
+        }
+        d.events_and_state();
+        d.reads(rng, true);
+        d.x("note healed");
     }
     d.settle();
     if rng.chance(1, 2) {
@@ -1809,6 +1833,50 @@ fn script_churn(rng: &mut Rng, tier: Tier, ex: &mut dyn FnMut(&str) -> String) {
 /// gets nothing, both layers keep exactly one session for the id
 fn script_dupid(rng: &mut Rng, _tier: Tier, ex: &mut dyn FnMut(&str) -> String) {
     let mut x = |op: &str| -> String { ex(op) };
+    if rng.chance(1, 3) {
+        // variant: an established session (timeout 15 s) whose client->server datagrams are lost for 6–9 s; then a second
+        // client object with the SAME id (fresh token, new socket) knocks. The old session is neither timed out nor
+        // ended by anybody: the newcomer stays outside; the trace ends before the 15 s are over
+        x("t-new 1 2 15 60 2");
+        x("note lossless");
+        x("note churn");
+        let observe = |x: &mut dyn FnMut(&str) -> String| {
+            for _ in 0..8 {
+                if x("t-ev") == "none" {
+                    break;
+                }
+            }
+            x("t-state");
+            x("t-acc");
+        };
+        for _ in 0..4 {
+            x("t-cupd 0 250000");
+            x("t-fwdn up 0");
+            x("t-supd 250000");
+            observe(&mut x);
+            x("t-ssend");
+            x("t-fwdn down 0");
+        }
+        let silent_rounds = rng.range(12, 18);
+        for _ in 0..silent_rounds {
+            x("t-cupd 0 500000"); // (what it sends stays in the relay)
+            x("t-supd 500000");
+            observe(&mut x);
+            x("t-ssend");
+            x("t-fwdn down 0");
+        }
+        x("t-cnew 1 100");
+        for _ in 0..rng.range(4, 8) {
+            x("t-cupd 0 250000");
+            x("t-cupd 1 250000");
+            x("t-fwdn up 1");
+            x("t-supd 250000");
+            observe(&mut x);
+            x("t-ssend");
+            x("t-fwdall down");
+        }
+        return;
+    }
     let dt = rng.pick(&[50_000u64, 100_000, 250_000]);
     let maxc = rng.pick(&[3usize, 3, 4, 2]);
     x(&format!("t-new 1 {} 5 60 3", maxc));
@@ -2440,7 +2508,9 @@ fn oracle_events(ops: &[String], outs: &[String]) -> Option<OracleFail> {
 /// in renet's set, in netcode's, and on its client.
 fn oracle_client_status(ops: &[String], outs: &[String]) -> Option<OracleFail> {
     let mut c = Ctx::default();
-    let mut connected_ev: HashSet<u64> = HashSet::new();
+    // id -> op index of the latest `connected <id>` event; slot -> op index at which its current client object was made
+    let mut connected_ev: HashMap<u64, usize> = HashMap::new();
+    let mut born: HashMap<usize, usize> = HashMap::new();
     // slot -> (t-state at which "connected but netcode down" was first seen, a t-cupd of the slot happened since)
     let mut lag: HashMap<usize, (usize, bool)> = HashMap::new();
     for (i, (op, out)) in ops.iter().zip(outs.iter()).enumerate() {
@@ -2451,7 +2521,7 @@ fn oracle_client_status(ops: &[String], outs: &[String]) -> Option<OracleFail> {
                 let e: Vec<&str> = out.split(' ').collect();
                 if e.len() >= 2 && e[0] == "connected" {
                     if let Ok(id) = e[1].parse::<u64>() {
-                        connected_ev.insert(id);
+                        connected_ev.insert(id, i);
                     }
                 }
             }
@@ -2465,6 +2535,9 @@ fn oracle_client_status(ops: &[String], outs: &[String]) -> Option<OracleFail> {
             "t-cnew" if t.len() == 3 => {
                 if let Ok(k) = t[1].parse::<usize>() {
                     lag.remove(&k);
+                    if out == "ok" {
+                        born.insert(k, i);
+                    }
                 }
             }
             "t-state" => {
@@ -2473,8 +2546,9 @@ fn oracle_client_status(ops: &[String], outs: &[String]) -> Option<OracleFail> {
                     if rs != "connected" {
                         continue;
                     }
-                    if !connected_ev.contains(id) {
-                        return fail(i, "client-connected-without-server-event", format!("the RenetClient of slot {} (id {}) reports connected, the server never reported `connected {}`", k, id, id));
+                    // (the event has to be that of THIS client object's handshake: younger than the object)
+                    if !connected_ev.get(id).map(|e| *e > born.get(k).copied().unwrap_or(0)).unwrap_or(false) {
+                        return fail(i, "client-connected-without-server-event", format!("the RenetClient of slot {} (id {}) reports connected, the server has not reported `connected {}` since that client object exists", k, id, id));
                     }
                     // (the RenetClient learns of a netcode-level end at the NEXT transport update: one update of lag is
                     // how the glue works)
